@@ -2,6 +2,7 @@ import AcraModel.Sql.RedactLemmas
 import AcraModel.Sql.ShapeLemmas
 import AcraModel.Sql.LogModel
 import AcraModel.Sql.LogSites
+import AcraModel.Sql.ErrText
 /-!
 # C16 — literal values from statements never appear in logs nor in the redacted form
 
@@ -314,6 +315,33 @@ theorem unparseable_never_logged (c : Config) :
       · simp at hq; rw [hq]
   · split at hb <;> simp at hb
     rw [hb]
+
+
+/-! ## errors that reach log calls carry no value -/
+
+open ErrText in
+/-- **A conversion error says nothing about the value.** The text of `utils.ErrorWithoutValue(err)` for `strconv`'s
+error depends on the function and the cause only – two inputs that fail the same way give the same text (the text of
+the unrepaired error differs, see the example below). Compared with the real function on generated values: op `C16.numerr`. -/
+theorem error_without_value_hides_input (f : String) (c : Cause) (v w : String) :
+    withoutValue ⟨f, v, c⟩ = withoutValue ⟨f, w, c⟩ := rfl
+
+open ErrText in
+/-- **A PostgreSQL syntax error says nothing about the token next to it.** Whatever follows ` at or near ` in the
+parser's message – the token, which can be a literal or the rest of an unterminated string – the text `ParseQuery`
+returns is the same. Compared with the real function on generated statements: op `C16.pgerr`. -/
+theorem pg_error_hides_token (kind tok tok' : List Char) (pos : Nat) :
+    pgError (kind ++ atOrNear ++ tok) pos = pgError (kind ++ atOrNear ++ tok') pos := by
+  unfold pgError
+  rw [cut_append, cut_append atOrNear kind tok']
+
+open ErrText in
+/-- `strconv`'s own text does tell the inputs apart – the repair is not vacuous -/
+example : (NumError.text ⟨"ParseInt", "secret1", .syntax⟩ == NumError.text ⟨"ParseInt", "secret2", .syntax⟩) = false := by decide
+open ErrText in
+example : withoutValue ⟨"ParseInt", "secret1", .syntax⟩ = "strconv.ParseInt: invalid syntax" := by decide
+open ErrText in
+example : pgError "syntax error at or near \"'secret'\"".toList 27 = "syntax error at position 27".toList := by decide
 
 /-! ## non-vacuity -/
 
